@@ -55,6 +55,8 @@ def gen_cases(tier, seed):
             cases.append({"engine": "line", "backend": "json", "pkind": pk, "state": st, "seed": seed, "tier": tier})
             if pk in ("same_run", "none", "other_run_same_rows"):
                 cases.append({"engine": "line", "backend": "sqlite", "pkind": pk, "state": st, "seed": seed, "tier": tier})
+    for part in range(4):   # a save that appends several MiB of series in one go (process death only)
+        cases.append({"engine": "kill", "backend": "json", "pkind": "same_run", "state": 0, "seed": seed, "tier": tier, "part": part, "parts": 4, "big": True})
     for st in range(1 if tier == "quick" else 3):
         for pk in (["same_run", "other_run_same_rows"] if tier == "quick" else PKINDS):
             for inj in ("kill", "enospc"):
@@ -83,6 +85,11 @@ def make_states(desc, ctx):
     cfg["lineup"][0]["kind"] = "Halton"
     for d in cfg["lineup"]:
         d["batch_size"] = 2 if desc["state"] % 2 else 1
+    if desc.get("big"):
+        # one save appends several MiB of series (4 rows of 1.6 MB): the HDF5 append is then many writes, not one
+        cfg.update(N=100000, D=1, E=2, sim_length_differs=False)
+        for d in cfg["lineup"]:
+            d["batch_size"] = 4
     base = ctx.scratch()
     captured = []
     orig = calmod.save_calibrator_state
@@ -233,7 +240,8 @@ def verdict(judge, folder, desc, point, out, save_outcome=None):
         win = judge.window(folder)
         wit["window"] = dict(zip(FILES, win))
         if cls == "hybrid":
-            mech = "json-torn:" + ",".join(win) + "|P=" + desc["pkind"]
+            by = {"trunc": "truncation", "line": "exception", "enospc": "exception", "kill": "death"}[desc["engine"]]
+            mech = "json-torn:" + ",".join(win) + "|P=" + desc["pkind"] + "|by=" + by
             out["violations"].append({"msg": f"JSON/CSV/HDF5 back-end: crash at {point} left files {dict(zip(['params.json', 'scheduler.pickle', 'loss.pickle', 'results.csv', 'series.h5'], win))} over a previous checkpoint "
                                              f"'{desc['pkind']}'; restore succeeds and returns neither P nor N ({det[:200]})", "witness": wit, "mechanism": mech})
     else:
